@@ -218,6 +218,9 @@ pub fn run(cfg: &Cfg, rep: &mut Rep) {
     let mut i = 0;
     let dl = gen::dur_lattice();
     for s in UNIFORM {
+        if cfg.fuzz {
+            break;
+        }
         for &d in gen::reading_lattice(s, &leap).iter() {
             i += 1;
             if i % n == sh {
@@ -233,6 +236,9 @@ pub fn run(cfg: &Cfg, rep: &mut Rep) {
     }
     // readings whose own count, TAI pivot or converted count sits exactly on / next to a duration bound
     for s in UNIFORM {
+        if cfg.fuzz {
+            break;
+        }
         for s2 in UNIFORM {
             for b in [MAX_NS, MIN_NS] {
                 for k in [0i128, 1, 2, NS_S, 20 * NS_S, 33 * NS_S, NS_D] {
@@ -251,6 +257,9 @@ pub fn run(cfg: &Cfg, rep: &mut Rep) {
     // the integer nanosecond counters of the four GNSS scales are conversions too (C20 owns their error clause; the
     // value clause - zero point and offset of each scale - is C05's): full u64 range in, boundaries of one century out
     for (gi, g) in [TimeScale::GPST, TimeScale::QZSST, TimeScale::GST, TimeScale::BDT].into_iter().enumerate() {
+        if cfg.fuzz {
+            break;
+        }
         for b in [0u64, 1, NPC as u64 - 1, NPC as u64, NPC as u64 + 1, 1 << 63, (1 << 63) - 1, u64::MAX, u64::MAX - 1, 2 * NPC as u64] {
             i += 1;
             if i % n == sh {
